@@ -134,7 +134,17 @@ static void conc_round(long r)
     vrf::count("traversals_overlapping_a_mutation", concurrent_trav);
     vrf::count("pushes", pushes.size());
     vrf::count("erases", erases.size());
-    if (r % 3000 == 0) vrf::sample(vrf::res.cur_program);
+    if (r % 3000 == 0) {
+        std::string obs = "{\"final_contents\":" + vrf::jnums(fin) + ",\"traversals\":[";
+        bool first = true;
+        for (int t = 0; t < vrf::MAXT; t++)
+            for (auto& tv : fx->trav[t]) {
+                obs += std::string(first ? "" : ",") + "{\"t\":" + std::to_string(t) + ",\"call\":" + std::to_string(tv.call) + ",\"ret\":" + std::to_string(tv.ret) + ",\"complete\":" + (tv.complete ? "1" : "0") + ",\"seen\":" + vrf::jnums(tv.seen) + "}";
+                first = false;
+            }
+        obs += "]}";
+        vrf::sample("{\"program\":" + vrf::res.cur_program + ",\"observed\":" + obs + "}");
+    }
 }
 
 // single-threaded sequences against std::list, compared after every step
